@@ -358,6 +358,7 @@ pub fn yaml_str(s: &str) -> String {
             '\n' => o.push_str("\\n"),
             '\r' => o.push_str("\\r"),
             '\t' => o.push_str("\\t"),
+            '\u{feff}' => o.push_str("\\uFEFF"),
             c if (c as u32) < 0x20 => write!(o, "\\x{:02x}", c as u32).unwrap(),
             c => o.push(c),
         }
@@ -503,15 +504,16 @@ pub struct Bias {
     pub error_pct: u64,
 }
 
-fn gen_date(r: &mut Rng, base: u32) -> XDate {
-    let day = base + r.below(3) as u32;
-    let (m, d) = if day > 28 { (11, day - 28) } else { (10, day) };
+/// the date `off` (+0..2) days after `start`, as Dt or now and then as DtTm with an offset
+fn gen_date(r: &mut Rng, start: chrono::NaiveDate, off: i64) -> XDate {
+    use chrono::Datelike;
+    let d = start + chrono::Duration::days(off + r.below(3) as i64);
     let dttm = if r.chance(1, 8) {
-        Some((*r.pick(&["10:15:00+02:00", "23:30:00+02:00", "00:10:00-05:00", "12:00:00Z"])).to_string())
+        Some((*r.pick(&["10:15:00+02:00", "23:30:00+02:00", "00:10:00-05:00", "12:00:00Z", "00:00:00+14:00", "23:59:59-12:00"])).to_string())
     } else {
         None
     };
-    XDate { y: 2021, m, d: d.max(1), dttm }
+    XDate { y: d.year(), m: d.month(), d: d.day(), dttm }
 }
 
 fn gen_value(r: &mut Rng, scale: u32) -> u64 {
@@ -583,18 +585,24 @@ fn gen_statement(r: &mut Rng, ccy: &str, scale: u32, opening: i128, b: &Bias, co
     let mut entries = Vec::new();
     let mut total = opening;
     let mut consistent = true;
-    let mut day = 1u32;
+    // the entries start a few days before a calendar boundary drawn on purpose (caldate.rs: New
+    // Year incl. the days whose ISO week belongs to the other year, leap day, month end, 1900 / 2100)
+    // and run across it; value dates lie up to two days before the booking date
+    let start = crate::caldate::gen_anchor(r, crate::caldate::YEAR_LO, crate::caldate::YEAR_HI, 8, 40);
+    let start = start.max(crate::caldate::ymd(crate::caldate::YEAR_LO, 1, 3));
+    let mut day = 0i64;
     for _ in 0..n {
         *counter += 1;
         let k = *counter;
         let credit = r.chance(2, 5);
         let sgn: i128 = if credit { 1 } else { -1 };
-        let booking = gen_date(r, day);
-        day = (day + r.below(4) as u32).min(26);
+        let booking = gen_date(r, start, day);
+        let booked = crate::caldate::ymd(booking.y, booking.m, booking.d);
+        day = (day + r.below(4) as i64).min(25);
         let value = match r.below(5) {
             0 => None,
             1 | 2 => Some(XDate { dttm: None, ..booking.clone() }),
-            _ => Some(gen_date(r, booking.d.saturating_sub(2).max(1))),
+            _ => Some(gen_date(r, booked, -2)),
         };
         let kind = r.below(10);
         if kind < 3 {
